@@ -41,6 +41,7 @@ VARIABLES
     roundFor,               \* recording epoch of the open registration round (0: closed)
     open,                   \* set of [entity, epoch, certified, expired]
     sigs,                   \* set of [entity, label, owner]  (key = entity, label : insert-or-replace)
+    buffered,               \* authenticated signatures that arrived before their open message existed
     certs,                  \* sequence of [entity, epoch, kind, parent, avkRec, signers]
     arts,                   \* set of [entity, cert]
     \* ---- in memory ----
@@ -48,8 +49,8 @@ VARIABLES
     sealing,                \* "none" | "inserted" | "marked" : progress inside create_certificate/artifact
     \* ---- history for schedule generation ----
     last
-vars == <<epoch, imm, recorded, roundFor, open, sigs, certs, arts, sm, sealing, last>>
-view == <<epoch, imm, recorded, roundFor, open, sigs, certs, arts, sm, sealing>>
+vars == <<epoch, imm, recorded, roundFor, open, sigs, buffered, certs, arts, sm, sealing, last>>
+view == <<epoch, imm, recorded, roundFor, open, sigs, buffered, certs, arts, sm, sealing>>
 
 NoEntity == <<"none">>
 MSD(e) == <<"MSD", e>>
@@ -62,7 +63,7 @@ Init ==
     /\ epoch = 1 /\ imm = 1
     /\ recorded = [e \in 0..(MaxEpoch + 1) |-> IF e <= 1 THEN Party ELSE {}]
     /\ roundFor = 0
-    /\ open = {} /\ sigs = {}
+    /\ open = {} /\ sigs = {} /\ buffered = {}
     /\ certs = <<[entity |-> MSD(1), epoch |-> 1, kind |-> "genesis", parent |-> 0, avkRec |-> 0, signers |-> {}]>>
     /\ arts = {}
     /\ sm = [state |-> "idle", tpEpoch |-> 0, entity |-> NoEntity]
@@ -75,13 +76,13 @@ EpochUp(n) ==
     /\ epoch + n <= MaxEpoch
     /\ epoch' = epoch + n
     /\ last' = [a |-> "EpochUp", n |-> n]
-    /\ UNCHANGED <<imm, recorded, roundFor, open, sigs, certs, arts, sm, sealing>>
+    /\ UNCHANGED <<imm, recorded, roundFor, open, sigs, buffered, certs, arts, sm, sealing>>
 
 ImmUp ==
     /\ imm < MaxImm
     /\ imm' = imm + 1
     /\ last' = [a |-> "ImmUp"]
-    /\ UNCHANGED <<epoch, recorded, roundFor, open, sigs, certs, arts, sm, sealing>>
+    /\ UNCHANGED <<epoch, recorded, roundFor, open, sigs, buffered, certs, arts, sm, sealing>>
 
 (* signer registration: accepted only while a round is open, recorded for the round's epoch *)
 Register(S) ==
@@ -89,7 +90,7 @@ Register(S) ==
     /\ roundFor = epoch + 1            \* a registration names the epoch it is for: current epoch + 1
     /\ recorded' = [recorded EXCEPT ![roundFor] = @ \cup S]
     /\ last' = [a |-> "Register", who |-> S]
-    /\ UNCHANGED <<epoch, imm, roundFor, open, sigs, certs, arts, sm, sealing>>
+    /\ UNCHANGED <<epoch, imm, roundFor, open, sigs, buffered, certs, arts, sm, sealing>>
 
 (* a peer submits party p's signature for the open message `en` under the name `lbl` *)
 Sign(p, lbl, en) ==
@@ -99,13 +100,32 @@ Sign(p, lbl, en) ==
     /\ (LabelChecked => lbl = p)
     /\ sigs' = {s \in sigs : ~(s.entity = en /\ s.label = lbl)} \cup {[entity |-> en, label |-> lbl, owner |-> p]}
     /\ last' = [a |-> "Sign", who |-> p, label |-> lbl, entity |-> en]
-    /\ UNCHANGED <<epoch, imm, recorded, roundFor, open, certs, arts, sm, sealing>>
+    /\ UNCHANGED <<epoch, imm, recorded, roundFor, open, buffered, certs, arts, sm, sealing>>
+
+(* an authenticated signature for the current beacon of a type whose open message does not exist yet *)
+(* is buffered (BufferedCertifierService) and handed over when the open message is created            *)
+SignEarly(p, lbl, en) ==
+    /\ en \in {MSD(epoch), CDB(epoch, imm)}
+    /\ ~\E m \in open : m.entity = en
+    /\ p \in SignersOf(EntityEpoch(en)) /\ lbl \in SignersOf(EntityEpoch(en))
+    /\ (LabelChecked => lbl = p)
+    /\ buffered' = buffered \cup {[entity |-> en, label |-> lbl, owner |-> p]}
+    /\ last' = [a |-> "Sign", who |-> p, label |-> lbl, entity |-> en]
+    /\ UNCHANGED <<epoch, imm, recorded, roundFor, open, sigs, certs, arts, sm, sealing>>
+
+(* a late or repeated signature for an entity whose open message is already certified or expired: *)
+(* refused (no state change); part of the environment so that generated schedules contain it      *)
+SignLate(p, en) ==
+    /\ \E m \in open : m.entity = en /\ (m.certified \/ m.expired)
+    /\ p \in SignersOf(EntityEpoch(en))
+    /\ last' = [a |-> "Sign", who |-> p, label |-> p, entity |-> en]
+    /\ UNCHANGED <<epoch, imm, recorded, roundFor, open, sigs, buffered, certs, arts, sm, sealing>>
 
 Expire(en) ==
     /\ \E m \in open : m.entity = en /\ ~m.certified /\ ~m.expired
     /\ open' = {IF m.entity = en THEN [m EXCEPT !.expired = TRUE] ELSE m : m \in open}
     /\ last' = [a |-> "Expire", entity |-> en]
-    /\ UNCHANGED <<epoch, imm, recorded, roundFor, sigs, certs, arts, sm, sealing>>
+    /\ UNCHANGED <<epoch, imm, recorded, roundFor, sigs, buffered, certs, arts, sm, sealing>>
 
 -----------------------------------------------------------------------------
 (* the state machine, one action per cycle branch *)
@@ -121,7 +141,7 @@ TickIdleStalled ==
     /\ sm.tpEpoch < epoch /\ EpochDataMissing
     /\ roundFor' = 0
     /\ last' = [a |-> "Tick"]
-    /\ UNCHANGED <<epoch, imm, recorded, open, sigs, certs, arts, sm, sealing>>
+    /\ UNCHANGED <<epoch, imm, recorded, open, sigs, buffered, certs, arts, sm, sealing>>
 
 TickIdle ==
     /\ sm.state = "idle" /\ sealing = "none"
@@ -133,6 +153,7 @@ TickIdle ==
        /\ sm' = IF epoch - LastCertEpoch > 1 THEN [state |-> "blocked", tpEpoch |-> epoch, entity |-> NoEntity]
                 ELSE IF GenesisEpoch = epoch THEN [state |-> "blocked", tpEpoch |-> epoch, entity |-> NoEntity]
                 ELSE [state |-> "ready", tpEpoch |-> epoch, entity |-> NoEntity]
+    /\ buffered' = {b \in buffered : EntityEpoch(b.entity) >= epoch}
     /\ last' = [a |-> "Tick"]
     /\ UNCHANGED <<epoch, imm, recorded, certs, arts, sealing>>
 
@@ -140,7 +161,7 @@ TickBlocked ==
     /\ sm.state = "blocked" /\ sealing = "none"
     /\ sm' = IF sm.tpEpoch < epoch THEN [state |-> "idle", tpEpoch |-> sm.tpEpoch, entity |-> NoEntity] ELSE sm
     /\ last' = [a |-> "Tick"]
-    /\ UNCHANGED <<epoch, imm, recorded, roundFor, open, sigs, certs, arts, sealing>>
+    /\ UNCHANGED <<epoch, imm, recorded, roundFor, open, sigs, buffered, certs, arts, sealing>>
 
 (* READY: first signable entity type without a certified / expired open message *)
 Candidates == <<MSD(epoch), CDB(epoch, imm)>>
@@ -161,8 +182,15 @@ TickReady ==
                             THEN open \cup {[entity |-> en, epoch |-> epoch, certified |-> FALSE, expired |-> FALSE]}
                             ELSE open
                  /\ sm' = [state |-> "signing", tpEpoch |-> epoch, entity |-> en]
+    \* hand-over of the buffered signatures of the entity whose open message was just created
+    /\ IF sm.state = "ready" /\ ~(sm.tpEpoch < epoch) /\ Pick # 0 /\ OpenFor(Candidates[Pick]) = {}
+       THEN LET en == Candidates[Pick]
+                mine == {b \in buffered : b.entity = en} IN
+            /\ sigs' = {s \in sigs : ~(s.entity = en /\ \E b \in mine : b.label = s.label)} \cup mine
+            /\ buffered' = buffered \ mine
+       ELSE UNCHANGED <<sigs, buffered>>
     /\ last' = [a |-> "Tick"]
-    /\ UNCHANGED <<epoch, imm, recorded, roundFor, sigs, certs, arts, sealing>>
+    /\ UNCHANGED <<epoch, imm, recorded, roundFor, certs, arts, sealing>>
 
 Outdated(en) ==
     \/ \E m \in OpenFor(en) : m.expired
@@ -187,7 +215,7 @@ TickSigningLeave ==
     /\ sm' = IF sm.tpEpoch < epoch THEN [state |-> "idle", tpEpoch |-> sm.tpEpoch, entity |-> NoEntity]
              ELSE [state |-> "ready", tpEpoch |-> sm.tpEpoch, entity |-> NoEntity]
     /\ last' = [a |-> "Tick"]
-    /\ UNCHANGED <<epoch, imm, recorded, roundFor, open, sigs, certs, arts, sealing>>
+    /\ UNCHANGED <<epoch, imm, recorded, roundFor, open, sigs, buffered, certs, arts, sealing>>
 
 CanSeal(en) ==
     /\ \E m \in OpenFor(en) : ~m.certified /\ ~m.expired
@@ -199,7 +227,7 @@ TickSigningWait ==
     /\ sm.state = "signing" /\ sealing = "none"
     /\ ~(sm.tpEpoch < epoch) /\ ~Outdated(sm.entity) /\ ~CanSeal(sm.entity)
     /\ last' = [a |-> "Tick"]
-    /\ UNCHANGED <<epoch, imm, recorded, roundFor, open, sigs, certs, arts, sm, sealing>>
+    /\ UNCHANGED <<epoch, imm, recorded, roundFor, open, sigs, buffered, certs, arts, sm, sealing>>
 
 (* create_certificate, persistence step 1: the certificate row *)
 InsertCertificate ==
@@ -211,7 +239,7 @@ InsertCertificate ==
             /\ sealing' = "marked"
        ELSE /\ sealing' = "inserted" /\ UNCHANGED open
     /\ last' = [a |-> "Tick", step |-> "insert"]
-    /\ UNCHANGED <<epoch, imm, recorded, roundFor, sigs, arts, sm>>
+    /\ UNCHANGED <<epoch, imm, recorded, roundFor, sigs, buffered, arts, sm>>
 
 (* create_certificate, persistence step 2: the open message is marked certified *)
 MarkCertified ==
@@ -219,7 +247,7 @@ MarkCertified ==
     /\ open' = {IF m.entity = sm.entity THEN [m EXCEPT !.certified = TRUE] ELSE m : m \in open}
     /\ sealing' = "marked"
     /\ last' = [a |-> "Internal", step |-> "mark"]
-    /\ UNCHANGED <<epoch, imm, recorded, roundFor, sigs, certs, arts, sm>>
+    /\ UNCHANGED <<epoch, imm, recorded, roundFor, sigs, buffered, certs, arts, sm>>
 
 (* artifact task: compute + store the signed entity (unique per entity), back to READY *)
 StoreArtifact ==
@@ -229,14 +257,14 @@ StoreArtifact ==
     /\ sealing' = "none"
     /\ sm' = [state |-> "ready", tpEpoch |-> sm.tpEpoch, entity |-> NoEntity]
     /\ last' = [a |-> "Internal", step |-> "artifact"]
-    /\ UNCHANGED <<epoch, imm, recorded, roundFor, open, sigs, certs>>
+    /\ UNCHANGED <<epoch, imm, recorded, roundFor, open, sigs, buffered, certs>>
 
 (* the process stops (at any point, in particular between the persistence steps) and restarts *)
 Restart ==
     /\ sm' = [state |-> "idle", tpEpoch |-> 0, entity |-> NoEntity]
     /\ sealing' = "none"
     /\ last' = [a |-> IF sealing = "none" THEN "Restart" ELSE "Crash", at |-> sealing]
-    /\ UNCHANGED <<epoch, imm, recorded, roundFor, open, sigs, certs, arts>>
+    /\ UNCHANGED <<epoch, imm, recorded, roundFor, open, sigs, buffered, certs, arts>>
 
 Tick == TickIdle \/ TickIdleStalled \/ TickBlocked \/ TickReady \/ TickSigningLeave \/ TickSigningWait \/ InsertCertificate
 Internal == MarkCertified \/ StoreArtifact
@@ -245,6 +273,8 @@ Env == \/ \E n \in 1..2 : EpochUp(n)
        \/ ImmUp
        \/ \E S \in RegSets : Register(S)
        \/ \E p, lbl \in Party : \E en \in OpenEntities : Sign(p, lbl, en)
+       \/ \E p, lbl \in Party : \E en \in {MSD(epoch), CDB(epoch, imm)} : SignEarly(p, lbl, en)
+       \/ \E p \in Party : \E en \in OpenEntities : SignLate(p, en)
        \/ \E en \in OpenEntities : Expire(en)
        \/ Restart
 
